@@ -40,7 +40,8 @@ def body(E, n, m, scaling, bounds, restarts, max_runs=3, use_old_rk=True, increa
 
     def solve_main(objfun, x0_, argsf, xl_, xu_, projections, npt, rhobeg_, rhoend_, maxfun_, nruns_so_far, nf_so_far, nx_so_far,
                    nsamples, params, diagnostic_info, scaling_changes, h=None, lh=None, argsh=(), prox_uh=None, argsprox=None,
-                   r0_avg_old=None, r0_nsamples_old=None, default_growing_method_set_by_user=None, do_logging=True, print_progress=False):
+                   r0_avg_old=None, r0_nsamples_old=None, default_growing_method_set_by_user=None, do_logging=True, print_progress=False,
+                   x0_eval_num_old=None, **other):
         k = len(runs)
         recycled = r0_avg_old is not None
         nf1 = E.int('nf_r%d' % k, 0, None)
@@ -79,6 +80,7 @@ def body(E, n, m, scaling, bounds, restarts, max_runs=3, use_old_rk=True, increa
             ei = ExitInformation(X['EXIT_FALSE_SUCCESS_WARNING'], "Maximum false successful steps reached")
         runs.append({'x0': x0_.copy(), 'xl': xl_, 'xu': xu_, 'npt': npt, 'rhoend': rhoend_, 'nruns0': nruns_so_far, 'nf0': nf_so_far,
                      'nx0': nx_so_far, 'recycled': recycled, 'r0old': r0_avg_old, 'cnt_old': r0_nsamples_old, 'scaling': scaling_changes,
+                     'x0num_old': x0_eval_num_old,
                      'ret': (x, r, obj, jac, cnt, nf1, nx1, nruns_so_far + 1, ei, diagnostic_info, xnum, jn), 'kind': kind,
                      'jac_copy': (jac.copy() if jac is not None else None), 'x_copy': x.copy()})
         return runs[-1]['ret']
@@ -92,9 +94,14 @@ def body(E, n, m, scaling, bounds, restarts, max_runs=3, use_old_rk=True, increa
     E.prove(len(runs) >= 1, 'C07:outer:at-least-one-run')
     if not runs:
         return
+    # ---- C01: the starting point handed to every run lies inside the (scaled) box it is given
+    for R in runs:
+        E.prove(E.all([R['xl'][i] <= R['x0'][i] for i in range(n)] + [R['x0'][i] <= R['xu'][i] for i in range(n)]), 'C01:outer:run-starts-inside-the-box')
     # ---- C19: caller data untouched
     E.prove(E.owned_intact(), 'C19:outer:caller-arrays-not-modified')
     E.prove(up == up_copy, 'C19:outer:user_params-not-modified')
+    dflt = getattr(solve, '__defaults__', None) or ()
+    E.prove(all(not (isinstance(v, list) and len(v) > 0) for v in dflt), 'C19:outer:mutable-default-arguments-untouched')
     # ---- C02: counters threaded, budget respected at every entry
     for k, R in enumerate(runs):
         if k == 0:
@@ -132,6 +139,8 @@ def body(E, n, m, scaling, bounds, restarts, max_runs=3, use_old_rk=True, increa
         if runs[k]['recycled']:
             E.prove(E.all([E.eq(runs[k]['r0old'][j], runs[pb]['ret'][1][j]) for j in range(m)] + [runs[k]['cnt_old'] == runs[pb]['ret'][4]]),
                     'C03:outer:recycled-residual-belongs-to-the-restart-point')
+            E.prove(runs[k]['x0num_old'] is not None and runs[k]['x0num_old'] == runs[pb]['ret'][10],
+                    'C03:outer:recycled-restart-point-keeps-its-evaluation-number')
     # ---- C11: Jacobian of the best run that has one, numbers with it, un-scaled exactly once
     jb = None
     for k in range(len(runs)):
